@@ -263,7 +263,9 @@ def _check_merge(a_steps, b_steps, decl, order, res):
 
 # tree: root -> {a -> b, c}; every successor starts where its predecessor ends.  The id assignments include ones whose decimal concatenations
 # coincide for different routes ("1"+"2"+"3" = "1"+"23", "10"+"1"+"2" = "10"+"12")
-ROUTE_IDS = [(1, 2, 3, 4), (1, 2, 3, 23), (10, 1, 2, 12), (5, 51, 1, 511), (7, 8, 9, 89)]
+ROUTE_IDS = [(1, 2, 3, 4), (1, 2, 3, 23), (10, 1, 2, 12), (5, 51, 1, 511), (7, 8, 9, 89),
+             (1, 2, 3, 32), (3, 2, 1, 21),                      # ... and ids whose concatenation collides when read from the far end (3-2-1 / 32-1)
+             (50195, 50196, 50197, 50198), (4000000001, 4000000002, 4000000003, 7)]       # ordinary multi-digit ids: the id of a merged lanelet is longer than any machine integer
 ROUTE_SHAPES = [((5, 0), (5, 0)), ((3, 4), (4, -3)), ((6, 8), (5, 0))]      # steps of (a, b); c goes off at another angle
 
 
@@ -304,6 +306,34 @@ def _check_routes(ids, shape, res):
         if abs(float(m.distance[-1]) - total) > 1e-9 * (1 + total):
             res.violation("C20|merged-routes|length-not-sum-of-the-route", f"{case}: route {job}: {float(m.distance[-1])} != {total}", case)
     res.outcomes["merged-routes-ok"] += 1
+    # the mirror image: the same tree with every link reversed, merged along the PREDECESSOR routes of the last lanelet (r is then the end of every
+    # route); the merged lanelet of a route runs from the route's farthest lanelet to r
+    rev = lambda pts: [tuple(p) for p in pts][::-1]
+    geo2 = {lid: (rev(g[0]), rev(g[2]), rev(g[1])) for lid, g in geo.items()}      # driving direction reversed: left and right swap
+    net2 = LaneletNetwork.create_from_lanelet_list([_mk_lanelet(geo2[i][0], geo2[i][1], geo2[i][2], i, pred=succ[i], succ=pred[i]) for i in (r, a, b, c)])
+    try:
+        merged2, jobs2 = Lanelet.all_lanelets_by_merging_predecessors_from_lanelet(net2.find_lanelet_by_id(r), net2, 1000.0)
+    except Exception as e:
+        res.violation(f"C20|merged-predecessor-routes|raises:{type(e).__name__}", f"{case}: {e!r}", case)
+        return
+    jobs2 = [list(j) for j in jobs2]
+    if sorted(sorted(j) for j in jobs2) != sorted([sorted([r, a, b]), sorted([r, c])]):
+        res.violation("C20|merged-predecessor-routes|routes", f"{case}: routes {jobs2}, expected the lanelets of [{r},{a},{b}] and of [{r},{c}]", case)
+        return
+    for m, job in zip(merged2, jobs2):
+        chain = [x for x in (b, a, r) if x in job] if a in job else [c, r]
+        for name, k_, got in (("center", 0, m.center_vertices), ("left", 1, m.left_vertices), ("right", 2, m.right_vertices)):
+            exp = list(geo2[chain[0]][k_])
+            for lid in chain[1:]:
+                exp += list(geo2[lid][k_])[1:]
+            exp = np.array(exp, dtype=float)
+            if got.shape != exp.shape or not np.allclose(got, exp, atol=1e-12, rtol=0):
+                res.violation(f"C20|merged-predecessor-routes|{name}-not-concatenation-of-the-route", f"{case}: route {job}: got {got.tolist()} expected {exp.tolist()}", case)
+                return
+        total = sum(sum(math.hypot(geo[lid][0][i + 1][0] - geo[lid][0][i][0], geo[lid][0][i + 1][1] - geo[lid][0][i][1]) for i in range(len(geo[lid][0]) - 1)) for lid in chain)
+        if abs(float(m.distance[-1]) - total) > 1e-9 * (1 + total):
+            res.violation("C20|merged-predecessor-routes|length-not-sum-of-the-route", f"{case}: route {job}: {float(m.distance[-1])} != {total}", case)
+    res.outcomes["merged-predecessor-routes-ok"] += 1
 
 
 # ------------------------------------------------------------------ (c)
